@@ -295,53 +295,97 @@ def check(ctx) -> None:
     ctx.check("C22.subset", cov, any(isinstance(n, ast.Call) and norm(n.func).endswith("TestCaseChromosome") for n in own_nodes(cov)), "_coverages no longer wraps the test case in a fresh TestCaseChromosome (stale execution results would be reused)", what="_coverages evaluates a fresh chromosome")
 
     # ------------------------------------------------------------------ C22.restore
+    # Locals are identified by the role they play (data flow), not by their names.
     mn = repo.func(GEN, "_minimize")
     ctx.analysed(mn)
     cfg = CFG(mn)
-    snap = [n for n in cfg.nodes if n.kind == "stmt" and isinstance(n.stmt, ast.Assign) and norm(n.stmt.value) == "generation_result.clone()"]
-    accepts = [n for n in cfg.nodes if n.kind == "stmt" and n.stmt is not None and any(isinstance(c, ast.Call) and norm(c.func) == "generation_result.accept" and c.args and "minimizer" in norm(c.args[0]) for c in ast.walk(n.stmt))]
-    ctx.check("C22.restore", mn, len(snap) == 1 and len(accepts) >= 3, "_minimize no longer snapshots the suite / runs the minimisers", what="snapshot and minimiser calls present", stmt="[anchors]")
+    S = mn.args.args[0].arg  # the suite that is minimised in place
+
+    def stmts(pred):
+        return [n for n in cfg.nodes if n.kind == "stmt" and n.stmt is not None and pred(n.stmt)]
+
+    def single_target(st):
+        return norm(st.targets[0]) if isinstance(st, ast.Assign) and len(st.targets) == 1 else norm(st.target) if isinstance(st, ast.AnnAssign) else None
+
+    defs: dict[str, list] = {}
+    for n in stmts(lambda st: isinstance(st, (ast.Assign, ast.AnnAssign)) and getattr(st, "value", None) is not None):
+        defs.setdefault(single_target(n.stmt), []).append(n)
+    # F: the coverage functions of the algorithm
+    fvars = {t for t, ds in defs.items() if any(norm(d.stmt.value).endswith(".test_suite_coverage_functions") for d in ds)}
+    if not fvars:
+        raise AnalysisError("_minimize no longer reads the algorithm's test_suite_coverage_functions: C22.restore cannot interpret it")
+
+    def mentions(expr, names, seen=()):
+        """expr reads one of `names`, directly or through locals defined from them."""
+        for x in ast.walk(expr):
+            if isinstance(x, ast.Name):
+                if x.id in names:
+                    return True
+                if x.id in defs and x.id not in seen and any(mentions(d.stmt.value, names, (*seen, x.id)) for d in defs[x.id]):
+                    return True
+        return False
+
+    snap = stmts(lambda st: isinstance(st, (ast.Assign, ast.AnnAssign)) and st.value is not None and norm(st.value) == f"{S}.clone()")
+    # coverage-guarded minimisers: visitors built (transitively) from the coverage functions and applied to the suite
+    accepts = stmts(lambda st: any(isinstance(c, ast.Call) and norm(c.func) == f"{S}.accept" and c.args and mentions(c.args[0], fvars) for c in ast.walk(st)))
+    ctx.check("C22.restore", mn, len(snap) == 1 and len(accepts) >= 3, "_minimize no longer snapshots the suite / runs the coverage-guarded minimisers", what="snapshot and minimiser calls present", stmt="[anchors]")
+    cmp_calls = [c for c in own_nodes(mn) if isinstance(c, ast.Call) and last_attr(c) == "_check_coverage"]
+    if len(cmp_calls) != 1 or len(cmp_calls[0].args) != 2 or not all(isinstance(x, ast.Name) for x in cmp_calls[0].args):
+        raise AnalysisError("_minimize no longer compares the coverages with one _check_coverage(<before>, <after>) call: C22.restore cannot interpret it")
+    before_name, after_name = (x.id for x in cmp_calls[0].args)
+    cmp_nodes = [n for n in cfg.nodes if n.stmt is not None and n.kind in ("stmt", "cond", "test") and any(c is cmp_calls[0] for c in ast.walk(n.stmt if n.kind == "stmt" else getattr(n.stmt, "test", n.stmt)))]
+    cmp_stmt = next((n for n in cmp_nodes), None)
+    verdict = single_target(cmp_stmt.stmt) if cmp_stmt is not None and cmp_stmt.kind == "stmt" and isinstance(cmp_stmt.stmt, (ast.Assign, ast.AnnAssign)) else None
+
+    def cov_of_suite(d):
+        return any(isinstance(c, ast.Call) and norm(c.func) == f"{S}.get_coverage_for" for c in ast.walk(d.stmt.value))
+
+    orig_cov = [d for d in defs.get(before_name, []) if cov_of_suite(d)]
+    mcov = [d for d in defs.get(after_name, []) if cov_of_suite(d)]
+    ctx.check("C22.restore", cmp_calls[0], len(orig_cov) == 1 == len(defs.get(before_name, [])) and len(mcov) == 1 == len(defs.get(after_name, [])), f"_check_coverage({before_name}, {after_name}): its operands are not each computed once, from the coverage of `{S}`", what="compared values are coverages of the suite", stmt="[operands]")
+    marks = stmts(lambda st: norm(st) == f"{S}.changed = True")
     if snap:
-        snap_name = norm(snap[0].stmt.targets[0])
+        snap_name = single_target(snap[0].stmt)
         for a in accepts:
             p = cfg.path([cfg.entry], [a.id], avoid_nodes={snap[0].id})
             ctx.paths += 1
             ctx.check("C22.restore", a.stmt, p is None, "a minimiser runs before the suite was cloned: the restore copy is already minimised", what="snapshot dominates the minimiser")
-        orig_cov = [n for n in cfg.nodes if n.kind == "stmt" and isinstance(n.stmt, ast.Assign) and norm(n.stmt.targets[0]) == "original_coverages"]
         for a in accepts:
             p = cfg.path([cfg.entry], [a.id], avoid_nodes={n.id for n in orig_cov})
             ctx.check("C22.restore", a.stmt, p is None and bool(orig_cov), "a minimiser runs before the reference coverages were computed", what="reference coverages dominate the minimiser", stmt="[orig-cov] " + norm(a.stmt)[:80])
-        rest = [n for n in cfg.nodes if n.kind == "stmt" and isinstance(n.stmt, ast.Assign) and norm(n.stmt.targets[0]) == "generation_result.test_case_chromosomes"]
-        ok = len(rest) == 1 and snap_name in norm(rest[0].stmt.value)
+        rest = stmts(lambda st: isinstance(st, ast.Assign) and norm(st.targets[0]) == f"{S}.test_case_chromosomes")
+        ok = len(rest) == 1 and snap_name in {x.id for x in ast.walk(rest[0].stmt.value) if isinstance(x, ast.Name)}
         ctx.check("C22.restore", rest[0].stmt if rest else mn, ok, "the restore branch does not rebuild the suite from the pre-minimisation snapshot", what="restore from the snapshot")
         if rest:
+            vtxt = verdict if verdict is not None else norm(cmp_calls[0])
+
             def lost(lit):
                 _k, e, pol = lit
-                return (pol and norm(e) == "not is_same") or (not pol and norm(e) == "is_same")
+                return (pol and norm(e) == f"not {vtxt}") or (not pol and norm(e) == vtxt)
 
             p = unguarded_path(cfg, [rest[0].id], lost)
-            ctx.check("C22.restore", rest[0].stmt, p is None, "restore is not tied to `not is_same`", what="restore iff coverage differs", stmt="[cond]")
-            ch = [n for n in cfg.nodes if n.kind == "stmt" and n.stmt is not None and norm(n.stmt) == "generation_result.changed = True"]
-            p = cfg.path([b for b, lab in cfg.succ[rest[0].id] if lab != "exc"], [cfg.exit], avoid_nodes={n.id for n in ch}, labels_excluded=("exc",))
+            ctx.check("C22.restore", rest[0].stmt, p is None, f"restore is not tied to `not {vtxt}`", what="restore iff coverage differs", stmt="[cond]")
+            # and the verdict is computed on every path that can skip the restore: no path from the comparison leaves
+            # with a differing coverage and without the restore (checked by the guard above in the other direction)
+            p = cfg.path([b for b, lab in cfg.succ[rest[0].id] if lab != "exc"], [cfg.exit], avoid_nodes={n.id for n in marks}, labels_excluded=("exc",))
             ctx.check("C22.restore", rest[0].stmt, p is None, "after restoring the suite its changed flag is not raised: cached (minimised) coverage would be reported", what="restored suite marked changed", stmt="[changed]")
-        iss = [n for n in cfg.nodes if n.kind == "stmt" and isinstance(n.stmt, ast.Assign) and norm(n.stmt.targets[0]) == "is_same"]
-        ok = len(iss) == 1 and norm(iss[0].stmt.value) == "_check_coverage(original_coverages, minimized_coverages)"
-        ctx.check("C22.restore", iss[0].stmt if iss else mn, ok, "is_same is not _check_coverage(original_coverages, minimized_coverages)", what="is_same from _check_coverage(original, minimized)")
+        if verdict is not None:
+            ctx.check("C22.restore", cmp_stmt.stmt, len(defs.get(verdict, [])) == 1, f"`{verdict}` is assigned more than once: the restore decision no longer follows from the coverage comparison alone", what="verdict assigned once, from _check_coverage(before, after)")
     # the comparison must see the minimized suite, and no coverage query takes the whole collection of coverage functions
-    mcov = [n for n in cfg.nodes if n.kind == "stmt" and isinstance(n.stmt, ast.Assign) and norm(n.stmt.targets[0]) == "minimized_coverages"]
-    marks = [n for n in cfg.nodes if n.kind == "stmt" and n.stmt is not None and norm(n.stmt) == "generation_result.changed = True"]
     if mcov:
-        last_accept_ids = [a.id for a in accepts]
         # every path from a minimiser run to the computation of the minimized coverages raises the changed flag of the suite
         unmarked = None
         for a in accepts:
-            pth = cfg.path([b for b, lab in cfg.succ[a.id] if lab != "exc"], [mcov[0].id], avoid_nodes={n.id for n in marks} | {x for x in last_accept_ids if x != a.id and False}, labels_excluded=("exc",))
+            pth = cfg.path([b for b, lab in cfg.succ[a.id] if lab != "exc"], [mcov[0].id], avoid_nodes={n.id for n in marks}, labels_excluded=("exc",))
             if pth is not None:
                 unmarked = a
-        ctx.paths += len(accepts)
-        ctx.check("C22.restore", mcov[0].stmt, unmarked is None, "the minimisers change the test cases of the suite in place, but the suite is not marked as changed before its coverage is computed again: the comparison reads the values cached before the minimisation and never notices a loss (CASE minimisation can lower the coverage of the suite)", what="suite marked changed before the minimised coverages are computed", stmt="[stale comparison]")
-    bad_q = [c for c in own_nodes(mn) if isinstance(c, ast.Call) and last_attr(c) == "get_coverage_for" and c.args and norm(c.args[0]) in ("fitness_functions", "algorithm.test_suite_coverage_functions")]
-    ctx.check("C22.restore", bad_q[0] if bad_q else mn, not bad_q, "_minimize asks for the coverage of the whole collection of coverage functions (`get_coverage_for(fitness_functions)`): the collection is unhashable, the restore path raises TypeError exactly when minimisation lost coverage", what="coverage is queried per coverage function", stmt="[coverage query]")
+            # and no minimiser runs after the coverages it is judged by were computed
+            late = cfg.path([b for b, lab in cfg.succ[mcov[0].id] if lab != "exc"], [a.id], labels_excluded=("exc",))
+            ctx.check("C22.restore", a.stmt, late is None, "a minimiser runs after the coverages of the minimised suite were computed: what it removes is never compared", what="minimiser precedes the minimised coverages", stmt="[late] " + norm(a.stmt)[:80])
+        ctx.paths += 2 * len(accepts)
+        ctx.check("C22.restore", mcov[0].stmt, unmarked is None, "the minimisers change the test cases of the suite in place, but the suite is not marked as changed before its coverage is computed again: the comparison reads the values cached before the minimisation and can never notice a loss" + (f" (path from `{norm(unmarked.stmt)[:60]}`)" if unmarked is not None else ""), what="suite marked changed between the minimisers and the comparison", stmt="[stale comparison]")
+    bad_q = [c for c in own_nodes(mn) if isinstance(c, ast.Call) and last_attr(c) == "get_coverage_for" and c.args and (norm(c.args[0]) in fvars or norm(c.args[0]).endswith(".test_suite_coverage_functions"))]
+    ctx.check("C22.restore", bad_q[0] if bad_q else mn, not bad_q, "_minimize asks for the coverage of the whole collection of coverage functions (`get_coverage_for(<all coverage functions>)`): the collection is unhashable, the restore path raises TypeError exactly when it is needed", what="coverage queried per coverage function", stmt="[coverage query]")
     cc = repo.func(GEN, "_check_coverage")
     ctx.analysed(cc)
     d = [n for n in own_nodes(cc) if isinstance(n, ast.Assign) and _is_isclose_guard(("lit", n.value, True))]
